@@ -114,6 +114,9 @@ def _case(rng, kind, steps, **over):
         "copy": bool(rng.random() < 0.7),
         "act_col": bool(rng.random() < 0.2),
         "midreset": bool(rng.random() < 0.2),
+        # sub-environments that hand out non-C-contiguous arrays (transposed / Fortran-ordered frames): same logical
+        # values, another memory order
+        "layout": "fortran" if rng.random() < 0.25 else "c",
         "steps": int(steps),
         "seed": int(rng.integers(1 << 30)),
     }
@@ -207,6 +210,7 @@ def _env_cfg(case, sleep):
         "leave_mode": case.get("leave_mode", "absent"),
         "shuffle_keys": bool(case.get("shuffle_keys")),
         "hetero": bool(case.get("hetero")),
+        "layout": case.get("layout", "c"),
         "sleep": bool(sleep),
     }
 
